@@ -735,4 +735,22 @@ theorem bankSend_inv {s s' : State} {f t : Addr} {coins : Coins} (hi : Inv s) (h
       simp only [not_or, Bool.not_eq_true', Bool.not_eq_false'] at hv
       exact sendCoins_inv hi (isValidCoins_nodup (by simpa using hv.1)) hs1
 
+/-- bank `DelegateCoins` applies the same availability test and the same move as `SendCoins`. -/
+theorem delegateCoins_eq_sendCoins (s : State) (f p : Addr) (amt : Coins) :
+    delegateCoins s f p amt = sendCoins s f p amt := rfl
+
+theorem stakeDelegate_inv {s s' : State} {f : Addr} {coin : Coin} (hi : Inv s) (h : stakeDelegate s f coin = .ok s') :
+    Inv s' ∧ ∀ b e, hold s' b e = hold s b e := by
+  unfold stakeDelegate at h
+  split at h
+  · simp at h
+  · split at h
+    · simp at h
+    · split at h
+      · simp at h
+      · rename_i s1 hs1
+        injection h with h; subst h
+        rw [delegateCoins_eq_sendCoins] at hs1
+        exact sendCoins_inv hi (by simp [nodupDenoms, Coins.denoms]) hs1
+
 end PvProofs.Exhold
